@@ -28,7 +28,7 @@ def histories(draw):
     ens = cfg["cls"] == "ensemble"
     ops = []
     for _ in range(draw(st.integers(1, 7))):
-        kinds = ["step", "advance", "advance", "clone", "step_clone"] + ([] if ens else ["exchange", "exchange"])
+        kinds = ["step", "advance", "advance", "clone", "step_clone", "reload"] + ([] if ens else ["exchange", "exchange"])
         k = draw(st.sampled_from(kinds))
         if k == "advance":
             ops.append({"op": k, "m": draw(st.sampled_from([0, 1, 2, 3]) if ens else st.one_of(st.integers(0, 30), st.integers(95, 130)))})
@@ -165,6 +165,21 @@ def body_history(case, ctx):
                     ch.replace_last(pos.copy())
                     ch.probs[-1] = tgt.logp(pos) * ch.inv_temp
                     ctx.event("exchange")
+                elif op["op"] == "reload" and stored_any(ch, cfg):
+                    # the sampler is saved and restored (same posterior object); what it records from here on is held to the same rule
+                    import os
+                    import tempfile
+                    from props.c09_save_load import load as load_sampler
+                    fd, path = tempfile.mkstemp(suffix=".npz")
+                    os.close(fd)
+                    try:
+                        ch.save(path)
+                        ch = load_sampler(cfg, path, tgt)
+                    finally:
+                        os.remove(path)
+                    if cfg.get("max_attempts") and cls == "ensemble":
+                        ch.max_attempts = cfg["max_attempts"]
+                    ctx.event("reloaded")
                 elif op["op"] == "clone":
                     before = full(ch) if stored_any(ch, cfg) else None
                     clone = build_from_info(cfg, Target(cfg["target"], record=False), info)
